@@ -1,30 +1,20 @@
 /-
-  Model driver: one request per line on stdin, one answer per line on stdout.
-  Core-only (imports nothing that touches Mathlib) so it links as a `lean_exe`.
+  Model driver: one request per line on stdin (`op<TAB>field<TAB>…`), one answer per
+  line on stdout.  Core-only (imports nothing that touches Mathlib) so it links as a
+  `lean_exe`.  Each model area registers its operations in `SoyVerif/Ops/<Area>.lean`.
 -/
-import SoyVerif.Base.Bytes
-import SoyVerif.Model.RawText
-import SoyVerif.Spec.JoinLines
+import SoyVerif.Ops.Common
+import SoyVerif.Ops.RawText
 
-open SoyVerif
+open SoyVerif SoyVerif.Ops
 
-def optBytes : Option Bytes → String
-  | some b => "OK " ++ Bytes.toHexWire b
-  | none => "PANIC"
-
-def flag (s : String) : Bool := s == "1"
+def allOps : List Op :=
+  Ops.RawText.ops
 
 def handle (op : String) (f : List String) : String :=
-  match op, f with
-  | "rawtext", [s, tb, ta] =>
-    match Bytes.ofHex s with
-    | some b => optBytes (Model.rawtext b (flag tb) (flag ta))
-    | none => "BADREQ"
-  | "spec-rawtext", [s, tb, ta] =>
-    match Bytes.ofHex s with
-    | some b => "OK " ++ Bytes.toHexWire (Spec.joinLines b (flag tb) (flag ta))
-    | none => "BADREQ"
-  | _, _ => "BADOP"
+  match allOps.find? (·.1 == op) with
+  | some (_, h) => h f
+  | none => "BADOP"
 
 partial def loop (h : IO.FS.Stream) (out : IO.FS.Stream) : IO Unit := do
   let line ← h.getLine
